@@ -20,7 +20,12 @@ RULE = ('histories over {save_spike_clusters (fresh vectors, the vector the inst
         'generated dataset directories with raw data (KS / ALF / labelled ALF names, with or without a spike-cluster file, '
         'int16/float32/int32 raw files in 1-3 parts; all spikes on one template; 22 raw parts with 0 / 1 / 2 spikes in the '
         'kept chunks: subset stores of one spike or none; a store np.load rejects present before the first load; params.py '
-        'with n_closest_channels = 1 / 2: stores one or two columns wide); the freshly '
+        'with n_closest_channels = 1 / 2: stores one or two columns wide; since stage 6: spike_templates.npy of dtype uint16 '
+        'with the cluster file byte-copied from it at the first load, cluster files of dtype uint8 / int8 / int16 / uint16 / '
+        'big-endian u2 and i4 / uint64, saves of narrow-dtype arrays that leave such a file behind, cluster ids at and beyond '
+        '127 / 255 / 32767 / 65535 up to 131071, field names next to the excluded `info` (info_score, information, Info, inf, '
+        'cluster_info, group2, ...) and foreign files named next to cluster_info.* (cluster_info_backup.tsv, cluster_info.old.tsv, '
+        'cluster_inf.csv, xcluster_info.tsv, ...)); the freshly '
         'loaded model is compared with the Coq view after EVERY reload. quick: every history of length <= 3 over two '
         '10-symbol alphabets (closed by a reload; the second alphabet on a dataset with a loaded cluster_group.tsv: saves '
         'equal to the load-time snapshots) on two datasets and of length <= 2 on a one-spike-store dataset, a corpus, then 300 '
@@ -55,7 +60,9 @@ TRUSTED = ['csv (text layer: quoting, delimiters), str()/repr()/int()/float() ro
 ASSUMES = ['field names are identifiers other than cluster_id (and other than `info`: cluster_info.tsv is never loaded)',
            'saved strings are not numeric (they start with a letter other than i, I, n, N); the empty string is dropped like None',
            'no field is given values by two files that are visible at the same time (glob order is not determined)',
-           'cluster ids in foreign files are not floats; cluster ids of save_spike_clusters fit int32; negative ids make the '
+           'cluster ids in foreign files are not floats; cluster ids of save_spike_clusters fit int32 (generated: <= 131071 -- '
+           'get_merge_map builds a dictionary with max(id) + 1 keys, and for id = 2**31 - 1 that int32 sum wraps and the load '
+           'fails with KeyError: noted in notes/C10.md stage 6, not generated); negative ids make the '
            'load fail (get_merge_map KeyError) and are outside the statement',
            '>= 2 spikes, >= 2 templates, >= 2 samples per waveform (phylib squeezes singleton axes of the dataset files; the '
            'subset store itself may hold one spike or none since fix-c10b)']
